@@ -128,6 +128,14 @@ def sign_role(ctx, f, an, bn):
         if es.k == "call" and es.a[0].name == "from_residual":
             continue
         if es.k == "agg" and es.a[0].endswith("Result::Err"):
+            # a refusal to sign must be the library signer's own failure (an early exit on the message's size or
+            # content makes updates fail that the size rules accept - and differently per back-end)
+            derived = any(x.k == "vfield" and x.a[1] in ("Err", "Break") for x in es.walk())
+            for d, cond, allowed, alll in an.constraints_at(bb):
+                if cond.k == "discr" and allowed and allowed <= {"Err", "Break"} and any(x.k == "call" and not x.a[0].local for x in cond.walk()):
+                    derived = True
+            if not derived:
+                return False, "refuses to sign on a condition of its own (an Err exit that is not the library signer's failure)"
             continue
         if not (es.k == "agg" and es.a[0].endswith("Result::Ok")):
             return False, "returns %s" % short(es, 120)
